@@ -287,9 +287,35 @@ pub fn gen_fusion_family(rng: &mut SmallRng) -> Program {
             } else {
                 any(rng, &inputs, &sums)
             };
+            // a second reader of the product in some other operand position of some other op kind
+            // (use-count logic of the fusion pass), before or after the sum
+            let extra = if rng.random_range(0..3) == 0 {
+                let (p, q, r) = (any(rng, &inputs, &sums), any(rng, &inputs, &sums), any(rng, &inputs, &sums));
+                Some(match rng.random_range(0..6) {
+                    0 => Stmt::Horner(p, q, m, r),
+                    1 => Stmt::Horner(p, q, r, m),
+                    2 => Stmt::Horner(m, q, p, r),
+                    3 => Stmt::MulAdd(p, q, m),
+                    4 => Stmt::Sub(p, m),
+                    _ => Stmt::Horner(p, m, q, r),
+                })
+            } else {
+                None
+            };
+            let before = rng.random_range(0..2) == 0;
+            if let (Some(e), true) = (&extra, before) {
+                stmts.push(e.clone());
+                sums.push(nv);
+                nv += 1;
+            }
             stmts.push(if rng.random_range(0..2) == 0 { Stmt::Add(m, addend) } else { Stmt::Add(addend, m) });
             sums.push(nv);
             nv += 1;
+            if let (Some(e), false) = (&extra, before) {
+                stmts.push(e.clone());
+                sums.push(nv);
+                nv += 1;
+            }
         } else if k == 8 {
             let a = any(rng, &inputs, &sums);
             let b = any(rng, &inputs, &sums);
